@@ -7,6 +7,8 @@ mod constants;
 mod performance_test;
 mod search;
 mod uci;
+#[cfg(daniel729_chess_verif)]
+mod verif_hooks;
 
 use arrayvec::ArrayVec;
 use chess::move_struct::Move;
